@@ -82,6 +82,9 @@ def models(name):
                                   H1=sympy.Matrix([[0, 1, a], [1, 0, sympy.I], [Dagger(a), -sympy.I, 0]]), blocks=[0, 0, 1], fd_blocks=(0,)),
         "spectator_in_matrix": dict(modes=[a, b], H0=sympy.Matrix([[w * Na, 0], [0, w * Na + D]]), H1=sympy.Matrix([[0, b], [Dagger(b), 0]]), blocks=[0, 1]),
         "matrix_immutable": dict(modes=[a], H0=sympy.ImmutableMatrix([[w * Na, 0], [0, w * Na + D]]), H1=sympy.ImmutableMatrix([[0, a], [Dagger(a), a + Dagger(a)]]), blocks=[0, 1]),
+        # numeric anharmonic spectra: energy denominators with poles at occupations whose partner level is unphysical (n - 1 < 0)
+        "kerr_numeric_boundary": dict(modes=[a], H0=Na * (Na + 1) / 2, H1=a + Dagger(a), boundary=True),
+        "square_numeric_boundary": dict(modes=[a], H0=Na * Na, H1=a * a + Dagger(a) * Dagger(a), boundary=True),
         "displaced_no_symbols": dict(modes=[a], H0=Na, H1=a + Dagger(a), no_symbols=True),
         "spin_no_symbols": dict(modes=[sm], H0=pauli.SigmaZ("s"), H1=pauli.SigmaX("s"), no_symbols=True),
         "matrix_no_symbols": dict(modes=[a], H0=sympy.Matrix([[Na, 0], [0, Na + sympy.Rational(5, 2)]]), H1=sympy.Matrix([[0, a], [Dagger(a), a + Dagger(a)]]), blocks=[0, 1], no_symbols=True),
@@ -281,6 +284,27 @@ def c07(cfg):
     def addc(name, cl):
         all_clauses.setdefault(name, []).extend(cl)
 
+    if m.get("boundary"):
+        # boundary occupations (vacuum, one quantum) of the boson modes: the returned operators must be defined there.  The identities
+        # below are identities of rational functions of the occupation and say nothing about an occupation at which a coefficient has a pole.
+        bos = [k for k, md in enumerate(modes) if fock.kind_of(md) == "boson"]
+        singular = None
+        for occ in (0, 1):
+            for b in fock.binary_cases(modes):
+                Fb = fock.Fock(modes, binary={**b, **{k: occ for k in bos}})
+                OMb = OpMat(Fb, N)
+                for col in range(N):
+                    basis = [Fb.init() if r == col else {} for r in range(N)]
+                    for name in ("Ht", "U", "Ud"):
+                        for n in range(max_order + 1):
+                            try:
+                                OMb.apply(lib[name][n], basis)
+                            except symc.SymbolicDivisionByZero as e:
+                                singular = singular or dict(series=name, order=n, boson_occupation=occ, column=col, error=str(e)[:120])
+        if singular:
+            rec.direct_violation("library result is singular at a boundary occupation of a boson mode", sig + ":only-at-boundary-occupation", singular, reproduced=True)
+        else:
+            rec.discharged("library results are defined at the boson occupations 0 and 1", "confirmed")
     for b in cases:
         F = fock.Fock(modes, binary=b)
         OM = OpMat(F, N)
@@ -508,7 +532,10 @@ def _matrix_comparison(m, modes, lib, N, layout, max_order, seed):
                 scale = max(1.0, float(np.max(np.abs(A[np.ix_(inside, inside)]))))
                 worst = max(worst, err / scale)
                 if err > 1e-6 * scale:
-                    return False, {"series": name, "order": n, "max_abs_error": err, "params": params, "cutoff": cutoff}
+                    Dm = np.abs(A - B) * np.outer(inside, inside)
+                    r, c = (int(x) for x in np.unravel_index(int(np.argmax(Dm)), Dm.shape))
+                    return False, {"series": name, "order": n, "max_abs_error": err, "params": params, "cutoff": cutoff, "basis_state_row": r % D, "basis_state_col": c % D,
+                                   "matrix": complex(A[r, c]).real, "operator_result": complex(B[r, c]).real}
     return True, f"H_tilde and U agree with the truncated-matrix computation on interior states to order {max_order} (rel. err {worst:.1e}, cutoff {cutoff}, params {params})"
 
 
@@ -524,7 +551,8 @@ def configs(tier):
              ("nonhermitian_drive", 2), ("nonhermitian_jc", 2), ("nonhermitian_fermions", 2),
              ("spectator_boson", 2), ("spectator_fermion", 2), ("resonant_drives", 3), ("spin_y_only", 3), ("spin_y_numeric", 3), ("boson_spin_numeric", 3),
              ("displaced_no_symbols", 3), ("spin_no_symbols", 3), ("matrix_no_symbols", 2),
-             ("parity_coupling", 2), ("spectator_in_matrix", 2), ("matrix_immutable", 2)]
+             ("parity_coupling", 2), ("spectator_in_matrix", 2), ("matrix_immutable", 2),
+             ("kerr_numeric_boundary", 2), ("square_numeric_boundary", 2)]
     thorough = [("anharmonic3", 4), ("anharmonic4", 3), ("displaced", 4), ("kerr_drive", 3), ("two_bosons", 3), ("rabi", 4), ("jc_detuned", 3),
                 ("fermion_hop2", 4), ("fermion_pair3", 3), ("fermion_interaction", 3), ("holstein", 3), ("ladder_drive", 3),
                 ("mask_two_photon", 3), ("mask_one_photon", 2), ("matrix_2x2", 3), ("matrix_1block", 3),
@@ -535,7 +563,8 @@ def configs(tier):
                 ("nonhermitian_drive", 3), ("nonhermitian_jc", 3), ("nonhermitian_fermions", 3),
                 ("spectator_boson", 3), ("spectator_fermion", 3), ("resonant_drives", 4), ("spin_y_only", 4), ("spin_y_numeric", 4), ("boson_spin_numeric", 3),
                 ("displaced_no_symbols", 4), ("spin_no_symbols", 4), ("matrix_no_symbols", 3),
-                ("parity_coupling", 3), ("spectator_in_matrix", 3), ("matrix_immutable", 3)]
+                ("parity_coupling", 3), ("spectator_in_matrix", 3), ("matrix_immutable", 3),
+                ("kerr_numeric_boundary", 2), ("square_numeric_boundary", 2)]
     for name, mo in quick if tier == "quick" else thorough:
         cfgs.append(dict(model=name, max_order=mo, _timeout_s=300 if tier == "quick" else 1500))
     # seeded random polynomial models (fixed seeds per tier: the encoding is regenerated, the set is stated)
